@@ -9,7 +9,7 @@ from ..report import Rule, RuleCtx
 from .. import tables
 from ..tables import Atom
 from . import cmpcore
-from .c19_norm import normalise
+from .c19_norm import normalise, inline_helpers
 from .c19_site import r5
 
 UNIVERSAL = 'mesonbuild/utils/universal.py'
@@ -31,6 +31,10 @@ EXPLANATION = (
     'and its argument the condition range self.tmp_meson_version (through locals and one level of private helpers), the value stored for the branch is '
     'their intersection, and the saved range is stored back on every CFG path out of the branch and before the table is read again. '
     'R5 does NOT model exceptions raised by statements outside any try (sa.cfg has exception edges only inside try), nor writers of tmp_meson_version in other modules. '
+    'Round 6: anchors are found by role and followed through helpers - the token producer (comprehension or append-loop, in __init__ or a module helper), '
+    'the accumulator of version_check_to_range (the range returned after the loop), the lists of version_compare_many (loop or filtering comprehensions), '
+    'the (operator, rest) pair of version_compare; Range.intersect is ONE table after inlining its private helpers; ==/!= are read from their decision tables; '
+    'ranking-key guards are decided by world enumeration.  A violation always names a construct that does the wrong thing on a path; code the pack cannot read is Undecided. '
     'Does NOT decide the order axioms on concrete version strings (tokenisation is run-time); a local whose definition may have been '
     'invalidated before its use, and range expressions that are not chains of Range(..)/.intersect(..), end Undecided.')
 TECHNIQUE = ('decision tables by path enumeration over canonical atoms + world enumeration, after tail duplication and copy propagation of '
@@ -62,16 +66,13 @@ def r2(ctx: RuleCtx) -> None:
     else:
         ctx.require(keys == want, f'Version ranking keys {keys}', mod, 'Version.__cmp', 'ranking keys',
                     f'ranking keys are {keys}; reference (kind: int above str, value ascending, longer is greater) is {want}')
-    # tokens: digits become int, letters stay str; nothing else is a component
-    fn = mod.func('Version.__init__')
-    rx = ctx.repo.module(UNIVERSAL).assign_value('_VERSION_TOK_RE')
-    from ..consteval import fold_expr, Regex
-    r = fold_expr(ctx.repo, mod, rx)
-    ctx.require(isinstance(r, Regex) and r.pattern == r'(\d+)|([a-zA-Z]+)', 'Version token regex is digits | letters', mod, '<module>', rx,
-                f'token regex changed: {r!r}')
-    ints = [n for n in ast.walk(fn) if isinstance(n, ast.IfExp) and isinstance(n.body, ast.Call) and norm(n.body.func) == 'int']
-    ok = len(ints) == 1 and norm(ints[0].body.args[0]) == norm(ints[0].test) and 'group(1)' in norm(ints[0].test) and 'group(2)' in norm(ints[0].orelse)
-    ctx.require(ok, 'digit runs are converted with int(), letter runs kept', mod, 'Version.__init__', fn, 'component conversion is not int(group(1)) if group(1) else group(2)')
+    # tokens: digits become int, letters stay str (the producer is found by role and followed into helpers)
+    from .c19_tokens import check_tokens
+    eq = mod.func('Version.__eq__')
+    fields = {n.attr for n in ast.walk(eq) if isinstance(n, ast.Attribute) and isinstance(n.value, ast.Name) and n.value.id == 'self'}
+    if len(fields) != 1:
+        raise Undecided(f'Version.__eq__ reads {sorted(fields)}: cannot name the component field')
+    check_tokens(ctx, mod, next(iter(fields)))
 
 
 def _sample_heads() -> T.List[str]:
@@ -156,8 +157,11 @@ def r3(ctx: RuleCtx) -> None:
                 continue
         raise Undecided(f'_version_extract_cmpop: unknown atom {a!r}')
     ctx.floor('operator prefixes tested', len(pre_atoms), 7)
-    ctx.require(set(pre_atoms.values()) == set(PREFIXES), f'prefixes tested {sorted(pre_atoms.values())}', mod, '_version_extract_cmpop', fn,
-                f'the prefixes tested {sorted(pre_atoms.values())} differ from the documented {sorted(PREFIXES)}')
+    # a documented prefix that is not tested shows up below as a wrong row for the strings that start with it;
+    # a tested prefix that is not documented is an operator meson does not have
+    extra = sorted(set(pre_atoms.values()) - set(PREFIXES))
+    ctx.require(not extra, f'prefixes tested {sorted(pre_atoms.values())}', mod, '_version_extract_cmpop', fn,
+                f'the prefixes {extra} are accepted as comparison operators but are not documented ({sorted(PREFIXES)})')
     for head in _sample_heads():
         world = {a: head.startswith(p) for a, p in pre_atoms.items()}
         rows = tab.fire(world)
@@ -176,59 +180,180 @@ def r3(ctx: RuleCtx) -> None:
                     f'text starting {head!r}: operator {want_op}, {len(best)} characters removed', mod, '_version_extract_cmpop', node,
                     f'for a constraint starting with {head!r} the code selects operator.{got[0]} and strips {got[1]} characters; '
                     f'documented: operator.{want_op}, {len(best)}')
-    # version_compare applies the operator to (Version(v1), Version(rest)) in that order
-    vc = mod.func('version_compare')
-    calls = [c for c in ast.walk(vc) if isinstance(c, ast.Call) and norm(c.func) == 'cmpop']
-    ok = len(calls) == 1 and [norm(a) for a in calls[0].args] == ['Version(vstr1)', 'Version(vstr2)']
-    ctx.require(ok, 'version_compare applies cmpop(Version(lhs), Version(rest))', mod, 'version_compare', vc, 'operand order / wrapping changed in version_compare')
+    _r3_version_compare(ctx, mod)
     _r3_compare_many(ctx, mod)
+
+
+def _single_def(fn: ast.AST, name: str) -> T.Optional[ast.AST]:
+    """The value bound to local `name` in fn when all its bindings are plain assignments of one and the same
+    expression (tail duplication repeats statements); None otherwise."""
+    vals: T.Dict[str, ast.AST] = {}
+    plain: T.Set[int] = set()
+    for n in walk_no_nested(fn, include_root=False):
+        if isinstance(n, ast.Assign) and len(n.targets) == 1 and isinstance(n.targets[0], ast.Name) and n.targets[0].id == name:
+            vals[norm(n.value)] = n.value
+            plain.add(id(n.targets[0]))
+        elif isinstance(n, ast.AnnAssign) and isinstance(n.target, ast.Name) and n.target.id == name:
+            plain.add(id(n.target))
+            if n.value is not None:
+                vals[norm(n.value)] = n.value
+    for n in walk_no_nested(fn, include_root=False):
+        if isinstance(n, ast.Name) and n.id == name and isinstance(n.ctx, (ast.Store, ast.Del)) and id(n) not in plain:
+            return None
+    return next(iter(vals.values())) if len(vals) == 1 else None
+
+
+def _r3_version_compare(ctx: RuleCtx, mod: T.Any) -> None:
+    """version_compare applies the extracted operator to (Version(lhs), Version(rest)) in that order.  The pieces are
+    found by role: the pair unpacked from `_version_extract_cmpop(<2nd parameter>)`, whatever the locals are called."""
+    vc = mod.func('version_compare')
+    params = [a.arg for a in vc.args.posonlyargs + vc.args.args]
+    if len(params) != 2:
+        raise Undecided('version_compare: expected (lhs, constraint)')
+    lhs, rhs = params
+    vcn = normalise(vc)
+    ops: T.Set[str] = set()
+    rests: T.Set[str] = set()
+    for st in walk_no_nested(vcn, include_root=False):
+        if isinstance(st, ast.Assign) and isinstance(st.value, ast.Call) and norm(st.value.func) == '_version_extract_cmpop' and len(st.targets) == 1:
+            if [norm(x) for x in st.value.args] != [rhs] or st.value.keywords:
+                raise Undecided(f'version_compare: {short(st)} does not split the constraint parameter')
+            t = st.targets[0]
+            if isinstance(t, ast.Tuple) and len(t.elts) == 2 and all(isinstance(x, ast.Name) for x in t.elts):
+                ops.add(t.elts[0].id)          # type: ignore[attr-defined]
+                rests.add(t.elts[1].id)        # type: ignore[attr-defined]
+            elif isinstance(t, ast.Name):
+                ops.add(f'{t.id}[0]')
+                rests.add(f'{t.id}[1]')
+            else:
+                raise Undecided(f'version_compare: cannot read {short(st)}')
+    if len(ops) != 1:
+        raise Undecided('version_compare: the call that splits the constraint into (operator, rest) was not found')
+    op, rest = next(iter(ops)), next(iter(rests))
+    rets = [x for x in walk_no_nested(vcn, include_root=False) if isinstance(x, ast.Return)]
+    ctx.floor('version_compare returns', len(rets), 1)
+    for ret in {norm(x): x for x in rets}.values():
+        v = ret.value
+        if isinstance(v, ast.Name) and _single_def(vcn, v.id) is not None:
+            v = _single_def(vcn, v.id)
+        if isinstance(v, ast.Call) and norm(v.func) == 'bool' and len(v.args) == 1:
+            v = v.args[0]
+        if not (isinstance(v, ast.Call) and norm(v.func) == op and len(v.args) == 2 and not v.keywords):
+            raise Undecided(f'version_compare: cannot read the result {short(ret)}')
+        inner: T.List[T.Optional[str]] = []
+        for a in v.args:
+            if isinstance(a, ast.Call) and norm(a.func) == 'Version' and len(a.args) == 1 and not a.keywords:
+                inner.append(norm(a.args[0]))
+            elif norm(a) in (lhs, rest):
+                inner.append(None)           # a bare string where a Version is needed
+            else:
+                raise Undecided(f'version_compare: cannot read the operand {short(a)}')
+        if None in inner:
+            ctx.violation(mod, 'version_compare', v, f'`{norm(v)}` hands the operator a plain string: both operands must be wrapped in Version(..)', ret)
+        elif inner == [rest, lhs] and rest != lhs:
+            ctx.violation(mod, 'version_compare', v, f'`{norm(v)}` applies the operator to (constraint, version): the operands are swapped', ret)
+        elif inner[0] == lhs and inner[1] in (rest, rhs):
+            # (the unstripped constraint would do as well: the tokenizer skips the operator characters)
+            ctx.ok('version_compare applies op(Version(lhs), Version(rest))')
+        else:
+            raise Undecided(f'version_compare: cannot attribute the operands of {short(v)}')
+
+
+def _partition_polarity(fnn: ast.AST, comp: ast.AST, lhs: str) -> T.Optional[bool]:
+    """`[r for r in reqs if version_compare(lhs, r)]` or `[r for r, ok in pairs if ok]` with
+    `pairs = [(r, version_compare(lhs, r)) for r in reqs]`: the polarity of the filter w.r.t. version_compare;
+    None when the comprehension is not such a partition."""
+    from ..tables import _Subst
+    if not (isinstance(comp, ast.ListComp) and len(comp.generators) == 1 and len(comp.generators[0].ifs) == 1
+            and not comp.generators[0].is_async and isinstance(comp.elt, ast.Name)):
+        return None
+    gen = comp.generators[0]
+    cond: ast.AST = gen.ifs[0]
+    if isinstance(gen.target, ast.Name):
+        var = gen.target.id
+        if comp.elt.id != var:
+            return None
+    elif isinstance(gen.target, ast.Tuple) and all(isinstance(x, ast.Name) for x in gen.target.elts) and isinstance(gen.iter, ast.Name):
+        src = _single_def(fnn, gen.iter.id)
+        if isinstance(src, ast.Call) and norm(src.func) in ('list', 'tuple') and len(src.args) == 1:
+            src = src.args[0]
+        if not (isinstance(src, (ast.ListComp, ast.GeneratorExp)) and len(src.generators) == 1 and not src.generators[0].ifs
+                and isinstance(src.generators[0].target, ast.Name) and isinstance(src.elt, ast.Tuple) and len(src.elt.elts) == len(gen.target.elts)):
+            return None
+        var = src.generators[0].target.id
+        mapping = {t.id: e for t, e in zip(gen.target.elts, src.elt.elts)}      # type: ignore[attr-defined]
+        if norm(mapping.get(comp.elt.id)) != var:
+            return None
+        cond = _Subst(mapping).visit(ast.parse(norm(cond), mode='eval').body)
+    else:
+        return None
+    atom, pol = tables.canon(cond, True)
+    if atom.kind != 'truth':
+        return None
+    e = ast.parse(atom.args[0], mode='eval').body
+    if isinstance(e, ast.Call) and norm(e.func) == 'version_compare' and [norm(x) for x in e.args] == [lhs, var] and not e.keywords:
+        return pol
+    return None
 
 
 def _r3_compare_many(ctx: RuleCtx, mod: T.Any) -> None:
     """version_compare_many: a requirement goes to the failed list iff version_compare is false; the verdict is
-    'the failed list is empty'.  The two lists are identified by their role, not by their name."""
+    'the failed list is empty'.  The two lists are identified by their role (appended to in the loop rows, or built
+    as a filtering comprehension), not by their name."""
     vm = mod.func('version_compare_many')
     vmn = normalise(vm)
-    loops = [s for s in ast.walk(vmn) if isinstance(s, ast.For)]
-    if not loops or len({norm(l) for l in loops}) != 1:
-        raise Undecided('version_compare_many: expected one loop over the requirements')
-    tab2 = tables.extract(vmn, body=loops[0].body, name='version_compare_many:loop', inline=False,
-                          effects=lambda st: norm(st) if isinstance(st, ast.Expr) else None)
+    lhs = (vm.args.posonlyargs + vm.args.args)[0].arg
     role: T.Dict[bool, T.Set[str]] = {True: set(), False: set()}
-    for r in tab2.rows:
-        held = [v for a, v in r.conds.items() if 'version_compare(' in repr(a)]
-        if len(held) != 1:
-            raise Undecided(f'version_compare_many: row without exactly one version_compare test: {r!r}')
-        effs = list(r.effects)
-        m = None
-        if len(effs) == 1:
-            e = ast.parse(effs[0], mode='eval').body
-            if isinstance(e, ast.Call) and isinstance(e.func, ast.Attribute) and e.func.attr == 'append' and isinstance(e.func.value, ast.Name) \
-                    and len(e.args) == 1 and norm(e.args[0]) == norm(loops[0].target):
-                m = e.func.value.id
-        if m is None:
-            ctx.violation(mod, 'version_compare_many', repr(r), f'row {r!r} should append the requirement to exactly one result list', r.path.events[-1].node if r.path.events else vm)
-            continue
-        role[held[0]].add(m)
-    ok = len(role[True]) == 1 and len(role[False]) == 1 and role[True] != role[False]
-    ctx.require(ok, f'version_compare_many: satisfied -> {sorted(role[True])}, failed -> {sorted(role[False])}', mod, 'version_compare_many', vm,
-                f'satisfied requirements are appended to {sorted(role[True])}, failed ones to {sorted(role[False])}: the two lists are not kept apart')
-    if not ok:
-        return
-    good, failed = next(iter(role[True])), next(iter(role[False]))
+    loops = [s for s in ast.walk(vmn) if isinstance(s, ast.For)]
+    if len({norm(l) for l in loops}) > 1:
+        raise Undecided('version_compare_many: more than one loop')
+    if loops:
+        tab2 = tables.extract(vmn, body=loops[0].body, name='version_compare_many:loop', inline=False,
+                              effects=lambda st: norm(st) if isinstance(st, ast.Expr) else None)
+        for r in tab2.rows:
+            held = [v for a, v in r.conds.items() if 'version_compare(' in repr(a)]
+            if len(held) != 1:
+                raise Undecided(f'version_compare_many: row without exactly one version_compare test: {r!r}')
+            effs = list(r.effects)
+            m = None
+            if len(effs) == 1:
+                e = ast.parse(effs[0], mode='eval').body
+                if isinstance(e, ast.Call) and isinstance(e.func, ast.Attribute) and e.func.attr == 'append' and isinstance(e.func.value, ast.Name) \
+                        and len(e.args) == 1 and norm(e.args[0]) == norm(loops[0].target):
+                    m = e.func.value.id
+            if m is None:
+                raise Undecided(f'version_compare_many: cannot read what row {r!r} does with the requirement')
+            role[held[0]].add(m)
+    for st in ast.walk(vmn):
+        if isinstance(st, ast.Assign) and len(st.targets) == 1 and isinstance(st.targets[0], ast.Name):
+            pol = _partition_polarity(vmn, st.value, lhs)
+            if pol is not None:
+                role[pol].add(st.targets[0].id)
+    if not role[True] and not role[False]:
+        raise Undecided('version_compare_many: neither a loop that files the requirements nor filtering comprehensions were found')
+
+    def roles_of(name: str) -> T.Set[bool]:
+        return {pol for pol in (True, False) if name in role[pol]}
     rets = [s for s in walk_no_nested(vmn) if isinstance(s, ast.Return)]
     ctx.floor('version_compare_many returns', len(rets), 1)
     for ret in {norm(s): s for s in rets}.values():
         v = ret.value
-        if not (isinstance(v, ast.Tuple) and len(v.elts) == 3):
+        if not (isinstance(v, ast.Tuple) and len(v.elts) == 3 and all(isinstance(x, ast.Name) for x in v.elts[1:])):
             raise Undecided(f'version_compare_many: cannot read the result {short(ret)}')
+        failed, good = v.elts[1].id, v.elts[2].id          # type: ignore[attr-defined]
+        if not roles_of(failed) or not roles_of(good):
+            raise Undecided(f'version_compare_many: cannot tell how `{failed}` / `{good}` are filled')
+        ctx.require(roles_of(failed) == {False}, f'version_compare_many: 2nd result `{failed}` holds the failed requirements', mod, 'version_compare_many', ret,
+                    f'the list returned as "not found" (`{failed}`) receives the requirements for which version_compare is '
+                    f'{" and ".join(str(x) for x in sorted(roles_of(failed)))}')
+        ctx.require(roles_of(good) == {True}, f'version_compare_many: 3rd result `{good}` holds the satisfied requirements', mod, 'version_compare_many', ret,
+                    f'the list returned as "found" (`{good}`) receives the requirements for which version_compare is '
+                    f'{" and ".join(str(x) for x in sorted(roles_of(good)))}')
         em = _emptiness(v.elts[0])
-        if em is None:
+        if em is None or em[1] not in (good, failed):
             raise Undecided(f'version_compare_many: cannot read the verdict {short(v.elts[0])}')
         ctx.require(em == ('empty', failed), f'version_compare_many: verdict is "`{failed}` is empty"', mod, 'version_compare_many', ret,
                     f'the overall verdict `{norm(v.elts[0])}` is not "no failed constraint" (`not {failed}`)')
-        ctx.require([norm(x) for x in v.elts[1:]] == [failed, good], 'version_compare_many: returns (verdict, failed, satisfied)', mod,
-                    'version_compare_many', ret, f'the lists are returned as {[norm(x) for x in v.elts[1:]]}; expected [{failed}, {good}]')
 
 
 def _truth(name: str) -> Atom:
@@ -354,46 +479,28 @@ def r4_post_init(ctx: RuleCtx) -> None:
     _compare(ctx, mod, 'Range.__post_init__', fn, tab, sem, view, ref, got)
 
 
-def _r4_intersect_side(ctx: RuleCtx, side: str) -> None:
-    mod = ctx.repo.module(UNIVERSAL)
-    qn = f'Range._intersect_{side}'
-    fn = mod.func(qn)
-    tab = tables.extract(normalise(fn), inline=False, effects=_assign_effects, name=qn)
-    f, fe = f'self.{side}', f'self.{side}_eq'
-    tighter = Atom('cmp', ('lt', f, 'ARG1')) if side == 'min' else Atom('cmp', ('lt', 'ARG1', f))
-    looser = Atom('cmp', ('lt', 'ARG1', f)) if side == 'min' else Atom('cmp', ('lt', f, 'ARG1'))
-    sem = {Atom('is', (f, 'None')): 'none', tighter: 'tighter', looser: 'looser', Atom('cmp', ('eq', 'ARG1', f)): 'equal'}
-
-    def view(w: T.Dict[Atom, bool]) -> T.Any:
-        return {k: w.get(a) for a, k in sem.items()}
-
-    def ref(v: T.Dict[str, T.Any]) -> T.Any:
-        if v['none'] or v['tighter']:
-            return 'replace'
-        if v['equal']:
-            return 'and'
-        return 'keep'
-
-    def got(r: tables.Row) -> str:
-        effs = set(_effs(r))
-        if not effs:
-            return 'keep'
-        if effs == {f'{f} := ARG1', f'{fe} := ARG2'}:
-            return 'replace'
-        if effs in ({f'{fe} := ARG2 and {fe}'}, {f'{fe} := {fe} and ARG2'}):
-            return 'and'
-        return 'other:' + ';'.join(sorted(effs))
-    _compare(ctx, mod, qn, fn, tab, sem, view, ref, got, list(sem))
-
-
 def r4_intersect(ctx: RuleCtx) -> None:
-    _r4_intersect_side(ctx, 'min')
-    _r4_intersect_side(ctx, 'max')
+    """Range.intersect as ONE table: private helpers called for effect (`result._intersect_min(..)`) are inlined first,
+    so the table is the same whether the bound logic lives in helpers or in intersect itself."""
     mod = ctx.repo.module(UNIVERSAL)
     fn = mod.func('Range.intersect')
-    tab = tables.extract(normalise(fn, module=mod.tree), inline=False, effects=_assign_effects, name='Range.intersect')
-    sem = {_truth('ARG1.is_empty'): 'x_empty', _truth('self.is_empty'): 'self_empty',
-           Atom('is', ('ARG1.min', 'None')): 'xmin_none', Atom('is', ('ARG1.max', 'None')): 'xmax_none'}
+    meths = mod.methods('Range')
+    helpers = {k: v for k, v in meths.items() if k.startswith('_') and not (k.startswith('__') and k.endswith('__'))}
+    tab = tables.extract(normalise(inline_helpers(fn, helpers), module=mod.tree), inline=False, effects=_assign_effects, name='Range.intersect')
+    res_names = {e.split(':=')[0].strip() for r in tab.rows for e in _effs(r) if e.endswith(':= copy.copy(self)') or e.endswith(':= copy(self)')}
+    if len(res_names) != 1:
+        raise Undecided(f'Range.intersect: the working copy of self was not found (candidates {sorted(res_names)})')
+    res = next(iter(res_names))
+    sem: T.Dict[Atom, str] = {_truth('ARG1.is_empty'): 'x_empty', _truth('self.is_empty'): 'self_empty'}
+    for side in ('min', 'max'):
+        mine, theirs = f'{res}.{side}', f'ARG1.{side}'
+        sem[Atom('is', (theirs, 'None'))] = f'x{side}_none'
+        sem[Atom('is', (mine, 'None'))] = f'r{side}_none'
+        tighter = ('lt', mine, theirs) if side == 'min' else ('lt', theirs, mine)
+        looser = ('lt', theirs, mine) if side == 'min' else ('lt', mine, theirs)
+        sem[Atom('cmp', tighter)] = f'{side}_tighter'
+        sem[Atom('cmp', looser)] = f'{side}_looser'
+        sem[Atom('cmp', ('eq', *sorted((mine, theirs))))] = f'{side}_equal'
 
     def view(w: T.Dict[Atom, bool]) -> T.Any:
         return {k: w.get(a) for a, k in sem.items()}
@@ -403,37 +510,71 @@ def r4_intersect(ctx: RuleCtx) -> None:
             return ('copy-x',)
         if v['self_empty']:
             return ('copy-self',)
-        calls = []
-        if not v['xmin_none']:
-            calls.append('min')
-        if not v['xmax_none']:
-            calls.append('max')
-        return ('copy-self', *calls, 'normalise')
+        out = ['copy-self']
+        for side in ('min', 'max'):
+            if v[f'x{side}_none']:
+                continue
+            if v[f'r{side}_none'] or v[f'{side}_tighter']:
+                out.append(f'{side}:replace')       # the strictly tighter bound (or any bound over none) replaces
+            elif v[f'{side}_equal']:
+                out.append(f'{side}:and')           # equal bounds: inclusive only if both are
+        return (*out, 'normalise')
 
     def got(r: tables.Row) -> T.Any:
         if r.outcome[0] != 'return':
             return r.outcome
         ret = r.outcome[1]
-        effs = _effs(r)
         if ret in ('copy.copy(ARG1)', 'copy(ARG1)'):
-            return ('copy-x',)
-        res = None
-        out: T.List[str] = []
-        for e in effs:
-            if e.endswith(':= copy.copy(self)') or e.endswith(':= copy(self)'):
-                res = e.split(':=')[0].strip()
-                out.append('copy-self')
-            elif res and e == f'call {res}._intersect_min(ARG1.min, ARG1.min_eq)':
-                out.append('min')
-            elif res and e == f'call {res}._intersect_max(ARG1.max, ARG1.max_eq)':
-                out.append('max')
-            elif res and e == f'call {res}.__post_init__()':
-                out.append('normalise')
+            return ('copy-x',) if not r.effects else ('copy-x', 'after effects')
+        seq: T.List[str] = []
+        sides: T.Dict[str, T.Set[str]] = {}
+        for e in _effs(r):
+            if e in (f'{res} := copy.copy(self)', f'{res} := copy(self)'):
+                seq.append('copy-self')
+            elif e == f'call {res}.__post_init__()':
+                seq.append('normalise')
             else:
-                out.append('other:' + e)
+                side = next((sd for sd in ('min', 'max') if e.startswith(f'{res}.{sd} :=') or e.startswith(f'{res}.{sd}_eq :=')), None)
+                if side is None:
+                    raise Undecided(f'Range.intersect: cannot classify the effect `{e}` of row {r!r}')
+                if side not in sides:
+                    seq.append(f'{side}:')
+                sides.setdefault(side, set()).add(e)
+                if 'normalise' in seq:
+                    seq.append(f'{side} changed after normalising')
+        out = []
+        for x in seq:
+            if x.endswith(':'):
+                side = x[:-1]
+                f, fe = f'{res}.{side}', f'{res}.{side}_eq'
+                effs = sides[side]
+                if effs == {f'{f} := ARG1.{side}', f'{fe} := ARG1.{side}_eq'}:
+                    x = f'{side}:replace'
+                elif effs in ({f'{fe} := ARG1.{side}_eq and {fe}'}, {f'{fe} := {fe} and ARG1.{side}_eq'}):
+                    x = f'{side}:and'
+                else:
+                    x = f'{side}:other(' + '; '.join(sorted(effs)) + ')'
+            out.append(x)
         if ret != res:
             out.append('returns:' + ret)
         return tuple(out)
+    # whatever the path: a bound of the result only ever receives the same bound of the other range, its inclusivity flag the
+    # other flag or the conjunction of both (a store of anything else is wrong on every path that performs it)
+    allowed: T.Dict[str, T.Set[str]] = {}
+    for side in ('min', 'max'):
+        allowed[f'{res}.{side}'] = {f'ARG1.{side}'}
+        allowed[f'{res}.{side}_eq'] = {f'ARG1.{side}_eq', f'ARG1.{side}_eq and {res}.{side}_eq', f'{res}.{side}_eq and ARG1.{side}_eq'}
+    bad_store: T.Dict[str, tables.Row] = {}
+    for r in tab.rows:
+        for e in _effs(r):
+            t, _, v = (x.strip() for x in e.partition(':='))
+            if t in allowed and v not in allowed[t]:
+                bad_store.setdefault(e, r)
+    for e, r in bad_store.items():
+        ctx.violation(mod, 'Range.intersect', e, f'`{e}`: intersect stores this into the result on the path `{r!r}`'[:500] + f'; the reference only stores {sorted(allowed[e.split(":=")[0].strip()])} there',
+                      r.path.events[-1].node if r.path.events else fn)
+    if bad_store:
+        return
     _compare(ctx, mod, 'Range.intersect', fn, tab, sem, view, ref, got, list(sem))
 
     fn = mod.func('Range.always')
@@ -583,7 +724,23 @@ def r4_check_to_range(ctx: RuleCtx) -> None:
     params = [a.arg for a in fn.args.args]
     if len(params) != 2:
         raise Undecided('version_check_to_range: expected (checks, start)')
-    acc = 'ARG2'
+    # the accumulator is found by role: the range the function returns after the loop; it is either the `start`
+    # parameter itself or a local initialised from it before the loop
+    after = fnn.body[fnn.body.index(loops[0]) + 1:]
+    rv = after[-1].value if after and isinstance(after[-1], ast.Return) else None
+    while isinstance(rv, ast.Call) and isinstance(rv.func, ast.Attribute) and rv.func.attr == 'intersect':
+        rv = rv.func.value          # something is still intersected after the loop: the accumulator is the receiver
+    if not isinstance(rv, ast.Name):
+        raise Undecided('version_check_to_range: expected `return <accumulated range>` after the loop')
+    acc = rv.id
+    if acc == params[1]:
+        acc = 'ARG2'
+    else:
+        init = [st for st in fnn.body[:fnn.body.index(loops[0])] if isinstance(st, ast.Assign) and norm(st.targets[0]) == acc]
+        if len(init) != 1 or norm(init[0].value) != params[1] or acc in params:
+            raise Undecided(f'version_check_to_range: the accumulator `{acc}` is not initialised from `{params[1]}` before the loop')
+    loop_bound = {x.id for x in ast.walk(loops[0]) if isinstance(x, ast.Name) and isinstance(x.ctx, ast.Store)}
+    loop_bound = {'ARG1' if n == params[0] else 'ARG2' if n == params[1] else n for n in loop_bound}
     rd = _RangeReader(ctx, mod, opvar, vvar)
     seen_ops: T.Set[str] = set()
     for r in tab.rows:
@@ -621,14 +778,33 @@ def r4_check_to_range(ctx: RuleCtx) -> None:
         narrowed = isinstance(final, ast.Call) and isinstance(final.func, ast.Attribute) and final.func.attr == 'intersect' \
             and norm(final.func.value) == acc and len(final.args) == 1
         if final is not None and not narrowed:
+            if acc != 'ARG2' and isinstance(final, ast.Call) and isinstance(final.func, ast.Attribute) and final.func.attr == 'intersect' and norm(final.func.value) == 'ARG2':
+                ctx.violation(mod, 'version_check_to_range', f'{acc} = {norm(final)}', f'every check is intersected with the start range `{params[1]}` instead of the '
+                              f'accumulated `{acc}`: of several checks only the last one survives', r.path.events[-1].node if r.path.events else fn)
+                continue
             raise Undecided(f'version_check_to_range: cannot read how the range is narrowed: {short(final)}')
+        if final is None:
+            # "the check is dropped" needs positive evidence: everything this iteration computes lives in plain locals that
+            # the next iteration overwrites (no call, no store into an object, nothing carried from iteration to iteration)
+            defined: T.Set[str] = {x.id for x in ast.walk(loops[0].target) if isinstance(x, ast.Name)}
+            for e in effs:
+                if e.startswith('call ') or ':=' not in e:
+                    raise Undecided(f'version_check_to_range: row {r!r} does not narrow `{acc}` but `{e}` may pass the range on')
+                t, v = (x.strip() for x in e.split(':=', 1))
+                tn = {x.strip() for x in t.strip('()').split(',')}
+                if not all(x.isidentifier() for x in tn):
+                    raise Undecided(f'version_check_to_range: row {r!r} does not narrow `{acc}` but stores into `{t}`')
+                carried = (names_in_text(v) & loop_bound) - defined
+                if carried or tn & names_in_text(v):
+                    raise Undecided(f'version_check_to_range: row {r!r} does not narrow `{acc}` but carries {sorted(carried | tn)} to the next iteration')
+                defined |= tn
         if narrowed and isinstance(final.args[0], ast.Name):          # type: ignore[union-attr]
             # the operand has no definition on this row (no arm ran): nothing is built for these operators, unless the
             # local is also bound outside the loop body (then the rule cannot tell what it holds)
             n = final.args[0].id                                        # type: ignore[union-attr]
             outside = [x for x in ast.walk(fnn) if isinstance(x, ast.Name) and x.id == n and isinstance(x.ctx, ast.Store)
                        and not any(x is y for y in ast.walk(loops[0]))]
-            if n in params or outside:
+            if n in params or n in ('ARG1', 'ARG2') or outside:
                 raise Undecided(f'version_check_to_range: `{n}` is bound outside the loop; cannot read the range of row {r!r}')
             ctx.note(f'version_check_to_range: operators {sorted(cand)}: no arm builds a range (row {r!r})')
             continue
@@ -660,21 +836,36 @@ def r4_check_to_range(ctx: RuleCtx) -> None:
                 f'operators with a row: {sorted(seen_ops)}; expected {sorted(ALL_OPS)}')
     # condition_with_min
     fn2 = mod.func('version_compare_condition_with_min')
-    tab2 = tables.extract(fn2, name='version_compare_condition_with_min')
+    tab2 = tables.extract(normalise(fn2), inline=False, name='version_compare_condition_with_min')
     for r in tab2.rows:
-        mn = [v for a, v in r.conds.items() if a == Atom('is', ('ARG1.min', 'None')) or (a.kind == 'is' and a.args[1] == 'None' and a.args[0].endswith('.min'))]
+        mn = [(a, v) for a, v in r.conds.items() if a.kind == 'is' and a.args[1] == 'None' and a.args[0].endswith('.min')]
         if not mn:
             raise Undecided(f'version_compare_condition_with_min: row without min test: {r!r}')
-        if mn[0]:
-            ok = r.outcome[0] == 'return' and r.outcome[1].endswith('.is_empty')
-            ctx.require(ok, 'no lower bound: result is is_empty', mod, 'version_compare_condition_with_min', fn2, f'no-minimum row returns {r.outcome}')
+        cond = mn[0][0].args[0][:-len('.min')]
+        if r.outcome[0] != 'return':
+            raise Undecided(f'version_compare_condition_with_min: row {r!r} does not return')
+        e = ast.parse(r.outcome[1], mode='eval').body
+        while isinstance(e, ast.Call) and norm(e.func) == 'bool' and len(e.args) == 1:
+            e = e.args[0]
+        atom, pol = tables.canon(e, True)
+        if mn[0][1]:
+            # no lower bound: the answer is is_empty of the same range
+            if atom == _truth(f'{cond}.is_empty'):
+                ctx.require(pol, 'no lower bound: result is is_empty', mod, 'version_compare_condition_with_min', fn2,
+                            f'the no-minimum row returns `{r.outcome[1]}`: the negation of is_empty')
+            elif isinstance(e, ast.Constant):
+                ctx.violation(mod, 'version_compare_condition_with_min', r.outcome[1], f'the no-minimum row returns the constant {r.outcome[1]}; it must return is_empty', fn2)
+            else:
+                raise Undecided(f'version_compare_condition_with_min: cannot read the no-minimum result {r.outcome[1]}')
         else:
-            e = ast.parse(r.outcome[1], mode='eval').body if r.outcome[0] == 'return' else None
-            ok = isinstance(e, ast.Compare) and len(e.ops) == 1 and (
-                (isinstance(e.ops[0], ast.LtE) and norm(e.left) == 'Version(ARG2)' and norm(e.comparators[0]).endswith('.min')) or
-                (isinstance(e.ops[0], ast.GtE) and norm(e.comparators[0]) == 'Version(ARG2)' and norm(e.left).endswith('.min')))
-            ctx.require(ok, 'lower bound: result is Version(minimum) <= condition.min', mod, 'version_compare_condition_with_min', fn2,
-                        f'lower-bound row returns {r.outcome}')
+            # Version(minimum) <= condition.min   ==   not (condition.min < Version(minimum))
+            pair = {'Version(ARG2)', f'{cond}.min'}
+            if atom.kind == 'cmp' and set(atom.args[1:]) == pair:
+                ok = atom == Atom('cmp', ('lt', f'{cond}.min', 'Version(ARG2)')) and pol is False
+                ctx.require(ok, 'lower bound: result is Version(minimum) <= condition.min', mod, 'version_compare_condition_with_min', fn2,
+                            f'the lower-bound row returns `{r.outcome[1]}`; it must be Version(minimum) <= condition.min')
+            else:
+                raise Undecided(f'version_compare_condition_with_min: cannot read the lower-bound result {r.outcome[1]}')
 
 
 RULES = [
@@ -683,7 +874,7 @@ RULES = [
     Rule('C19.R3', 'operator prefix chain: longest prefix first, matching slice', r3),
     Rule('C19.R4a', 'Range.__contains__ boundary table', r4_contains),
     Rule('C19.R4b', 'Range.__post_init__ emptiness table', r4_post_init),
-    Rule('C19.R4c', 'Range._intersect_min/_max/intersect/always tables', r4_intersect),
+    Rule('C19.R4c', 'Range.intersect (private helpers inlined) / always tables', r4_intersect),
     Rule('C19.R4d', 'version_check_to_range operator table', r4_check_to_range),
     Rule('C19.R5', 'if-clause narrowing: always() receiver/argument roles, narrowed range stored, saved range restored on every path', r5),
 ]
